@@ -298,6 +298,25 @@ func traceAppends(g *Gate, start AV) (ems []AEmission, bases []AV) {
 					}
 				}
 			}
+			// load of a field of a local object (an accumulator struct): the stores into that field,
+			// in whichever activation they are made
+			if fa, ok := v.X.(*ssa.FieldAddr); ok && v.Op == token.MUL && g.Top != nil {
+				if ae := a.Act.Env[fa]; ae != nil && ae.Op == "faddr" && len(ae.Args) > 0 && (ae.Args[0].Op == "alloc" || ae.Args[0].Op == "new") {
+					n := 0
+					for _, ef := range g.Top.Effects {
+						if ef.Kind != "store" || ef.Addr != ae || ef.Act == nil {
+							continue
+						}
+						if st, ok := ef.Ins.(*ssa.Store); ok {
+							n++
+							walk(AV{ef.Act, st.Val}, 0)
+						}
+					}
+					if n > 0 {
+						return
+					}
+				}
+			}
 			bases = append(bases, a)
 		case *ssa.ChangeType:
 			walk(AV{a.Act, v.X}, 0)
